@@ -9,11 +9,17 @@ calls on one Cleaner with lines on which one obfuscator finds several NEW items 
 hostN / 10.230.230.N depends on the order the items of a line are taken; the whole history is repeated in fresh
 Cleaners built from the SAME config / rm_conf / allow-list / content objects), `glue` (real filterable specs:
 RegistryPoint + simple_file / glob_file / simple_command, filters registered with add_filter(max_match=1..3),
-collected twice in one process through TextFileProvider / CommandOutputProvider .write).
+collected twice in one process through TextFileProvider / CommandOutputProvider .write), `echo` (content c is
+cleaned, substitutes taken from that cleaning are put into c' = c + lines / tokens carrying them below, above and on
+the line of their original; c' is cleaned by a fresh Cleaner in a NEW process (a fork of the child taken before it
+has cleaned anything) and by fresh Cleaners #2, #3, #4 of the child after it has cleaned c).
 Oracle (implementation only): two seeds that disagree on a case; an output line whose unique marker is
 missing, duplicated or out of order; an all-blank result returned or stored; a caller's object (allow list,
 filters cache, config, rm_conf, content list, no_obfuscate list) that differs from the deep copy taken before
-the call; a repetition of the same cleaning in a fresh Cleaner that differs from the first.
+the call; a repetition of the same cleaning in a fresh Cleaner that differs from the first; a fresh Cleaner of a
+process that has cleaned before that differs from a fresh Cleaner in a new process; a container (dict / list / set
+held by a module global, class attribute or default argument of insights.cleaner.*) whose contents differ from
+the snapshot taken at import.
 """
 import copy
 import json
@@ -165,7 +171,107 @@ def run_glue(case, tmp):
     return {"stored": colls[0], "maps": maps, "repeat": rep[:2], "mutated": mutated, "order": order}
 
 
-def run_case(case, tmp):
+CLEANER_MODULES = ["insights.cleaner", "insights.cleaner.ip", "insights.cleaner.mac", "insights.cleaner.hostname",
+                   "insights.cleaner.keyword", "insights.cleaner.password", "insights.cleaner.pattern",
+                   "insights.cleaner.filters", "insights.cleaner.utilities"]
+
+
+def cleaner_globals():
+    """contents of every container (dict / list / set) held by a module global or a class attribute of insights.cleaner.*"""
+    import importlib
+    import inspect
+    snap = {}
+    for mn in CLEANER_MODULES:
+        mod = importlib.import_module(mn)
+        for name, val in vars(mod).items():
+            if name.startswith("__"):
+                continue
+            if isinstance(val, (dict, list, set, frozenset)):
+                snap["%s.%s" % (mn, name)] = copy.deepcopy(val)
+            elif inspect.isclass(val) and getattr(val, "__module__", None) == mn:
+                for an, av in vars(val).items():
+                    if not an.startswith("__") and isinstance(av, (dict, list, set, frozenset)):
+                        snap["%s.%s.%s" % (mn, name, an)] = copy.deepcopy(av)
+                    elif callable(av) and getattr(av, "__defaults__", None):
+                        for k, dv in enumerate(av.__defaults__):
+                            if isinstance(dv, (dict, list, set)):
+                                snap["%s.%s.%s.default%d" % (mn, name, an, k)] = copy.deepcopy(dv)
+    return snap
+
+
+IMPORT_SNAPSHOT = None
+
+
+def globals_changed():
+    now = cleaner_globals()
+    return sorted(k for k in set(now) | set(IMPORT_SNAPSHOT) if now.get(k) != IMPORT_SNAPSHOT.get(k))
+
+
+def in_new_process(fn):
+    """run fn() in a forked copy of THIS interpreter; the caller forks before it has cleaned anything that matters to it"""
+    r, w = os.pipe()
+    pid = os.fork()
+    if pid == 0:
+        try:
+            os.close(r)
+            data = json.dumps(fn()).encode("utf-8")
+            with os.fdopen(w, "wb") as fh:
+                fh.write(data)
+        finally:
+            os._exit(0)
+    os.close(w)
+    with os.fdopen(r, "rb") as fh:
+        data = fh.read()
+    os.waitpid(pid, 0)
+    return json.loads(data.decode("utf-8"))
+
+
+def clean_once(cfg, lines):
+    cl = c09.mk_cleaner(cfg)
+    out = c09.do_call(cl, {"lines": lines, "no_obfuscate": [], "no_redact": 0, "allowlist": None})
+    return {"out": out, "maps": maps_json(cl)}
+
+
+def echo_content(case, first):
+    """c' = c plus lines / tokens carrying substitutes that cleaning c issued, below, above and on the line of their original"""
+    lines = list(case["lines"])
+    below, above = [], []
+    for n, (kind, idx, where) in enumerate(case["recipe"]):
+        entries = first["maps"].get(kind) or []
+        if not entries:
+            continue
+        orig, sub = entries[idx % len(entries)]
+        if where == "same":
+            for j, l in enumerate(lines):
+                if orig in l:
+                    lines[j] = l + " " + sub
+                    break
+            else:
+                below.append("@%d@ copied %s" % (90 + n, sub))
+        elif where == "below":
+            below.append("@%d@ copied %s end" % (90 + n, sub))
+        else:
+            above.append("@%d@ seen %s" % (70 + n, sub))
+    return above + lines + below
+
+
+def run_echo(case, pristine):
+    """content that contains the previous cleaner's OUTPUT: fresh Cleaners #2..#4 of this process against a new process"""
+    cfg = case["cfg"]
+    if pristine is None:       # (replay of a single case: this interpreter has not cleaned anything yet)
+        first = in_new_process(lambda: clean_once(cfg, case["lines"]))
+        c2 = echo_content(case, first)
+        pristine = in_new_process(lambda: clean_once(cfg, c2))
+    else:
+        first, c2, pristine = pristine
+    clean_once(cfg, case["lines"])                               # Cleaner #1 of this process
+    same = [clean_once(cfg, c2) for _ in range(3)]                # fresh Cleaners #2, #3, #4
+    return {"c2": c2, "runs": [pristine] + same}
+
+
+def run_case(case, tmp, pristine=None):
+    if case["kind"] == "echo":
+        return run_echo(case, pristine)
     if case["kind"] == "hist":
         return run_hist(case)
     if case["kind"] == "glue":
@@ -182,10 +288,25 @@ def run_case(case, tmp):
 
 
 def child_main():
+    global IMPORT_SNAPSHOT
     cases = json.load(sys.stdin)
+    IMPORT_SNAPSHOT = cleaner_globals()
     tmp = tempfile.mkdtemp(prefix="c10_")
     try:
-        out = [run_case(c, tmp) for c in cases]
+        # while this interpreter has not cleaned anything: the "new process" runs of the echo cases, each in a fork
+        pristine = {}
+        for c in cases:
+            if c["kind"] == "echo":
+                first = in_new_process(lambda: clean_once(c["cfg"], c["lines"]))
+                c2 = echo_content(c, first)
+                pristine[c["id"]] = (first, c2, in_new_process(lambda: clean_once(c["cfg"], c2)))
+        out = []
+        for c in cases:
+            r = run_case(c, tmp, pristine.get(c["id"]))
+            grown = globals_changed()
+            if grown:
+                r["globals"] = grown
+            out.append(r)
     finally:
         shutil.rmtree(tmp, ignore_errors=True)
     json.dump({"seed": os.environ.get("PYTHONHASHSEED"), "results": out}, sys.stdout)
@@ -388,6 +509,10 @@ def glue_allow(case):
 
 def model_lines(case):
     kind = case["kind"]
+    if kind == "echo":
+        c2 = case.get("_c2") or []
+        return [c09.sha_line(set([case["cfg"]["fqdn"]]) | c09.hextets(c2)), c09.init_line(case["cfg"]),
+                c09.clean_line({"lines": c2, "no_obfuscate": [], "no_redact": 0, "allowlist": None}), "map"]
     if kind == "hist":
         alls = [l for c in case["calls"] for l in c["lines"]]
         ls = [c09.sha_line(set([case["cfg"]["fqdn"]]) | c09.hextets(alls)), c09.init_line(case["cfg"])]
@@ -433,6 +558,9 @@ def model_maps(ans):
 def model_result(case, ans):
     """ans = the driver's answers to model_lines(case)"""
     kind = case["kind"]
+    if kind == "echo":
+        one = {"out": c09.model_out(ans[2]), "maps": model_maps(ans[3])}
+        return {"c2": case.get("_c2") or [], "runs": [one] * 4}
     if kind == "clean":
         return {"out": c09.model_out(ans[2])}
     if kind == "write":
@@ -447,6 +575,7 @@ def model_result(case, ans):
 def tie_view(case, res):
     """the part of a child's answer that the model predicts"""
     kind = case["kind"]
+    res = dict((k, v) for k, v in res.items() if k != "globals")
     if kind == "hist":
         return {"outs": res["outs"], "maps": res["maps"]}
     if kind == "glue":
@@ -487,6 +616,18 @@ def order_violation(case, res):
     """an output line with no or two source lines, out of order; an all-blank result returned / stored; a caller's object
     written into; a repetition that differs"""
     kind = case["kind"]
+    if res.get("globals"):
+        return "containers of insights.cleaner.* differ from their state at import after this case: %s" % ", ".join(res["globals"])
+    if kind == "echo":
+        runs = res["runs"]
+        for k in (1, 2, 3):
+            if runs[k] != runs[0]:
+                return ("fresh Cleaner #%d of a process that has cleaned before differs from a fresh Cleaner in a new process on "
+                        "content %r: %s vs %s" % (k + 1, res["c2"], json.dumps(runs[k]["out"])[:400], json.dumps(runs[0]["out"])[:400]))
+        out = runs[0]["out"]
+        if out and out[0] == c09.RAISED:
+            return None
+        return subsequence_violation(res["c2"], out)
     if kind in ("hist", "glue"):
         if res["mutated"]:
             return res["mutated"][0]
@@ -557,6 +698,8 @@ def finding_of(case):
 
 
 def case_lines(case):
+    if case["kind"] == "echo":
+        return case["lines"]
     if case["kind"] == "hist":
         return [l for c in case["calls"] for l in c["lines"]]
     if case["kind"] == "glue":
@@ -575,9 +718,22 @@ def load_corpus():
     return out
 
 
+def gen_echo(rng, i):
+    h = gen_hist(rng, i)
+    cfg = h["cfg"]
+    cfg["patterns"] = []
+    lines = [l for c in h["calls"][:2] for l in c["lines"] if l][:5]
+    lines = ["@%d@%s" % (j, re.sub(r"^@[0-9]+@", "", l)) for j, l in enumerate(lines)]
+    kinds = ["mac", "mac", "ip", "ipv6", "hostname", "keyword"]
+    recipe = [[rng.choice(kinds), rng.randrange(6), rng.choice(["below", "below", "above", "same"])] for _ in range(rng.randrange(2, 7))]
+    return {"id": i, "kind": "echo", "cfg": cfg, "lines": lines, "recipe": recipe}
+
+
 def gen_any(rng, i):
     k = rng.random()
-    if k < 0.40:
+    if k < 0.12:
+        return gen_echo(rng, i)
+    if k < 0.45:
         return gen_hist(rng, i)
     if k < 0.55:
         return gen_glue(rng, i)
@@ -603,10 +759,14 @@ def run(chk):
     quick = chk.tier == "quick"
     n_cases = 700 if quick else 3000
     seeds = list(range(12 if quick else 256))
-    chk.rule = ("four kinds of case, each starting from fresh Cleaners. clean (36%) / write (9%): one clean_content call or one "
+    chk.rule = ("five kinds of case, each starting from fresh Cleaners. echo (12%): 1-5 multi-item lines c; 2-6 substitutes that "
+                "cleaning c issued (MAC, IPv4, IPv6, host, keyword) are placed on lines below / above / on the line of their original; "
+                "c' is cleaned in a new process (fork of the still pristine child) and by fresh Cleaners #2-#4 of the child after it "
+                "cleaned c, all four compared with each other, across seeds and with the model; after EVERY case the containers of "
+                "insights.cleaner.* are compared with their import-time snapshot. clean (32%) / write (8%): one clean_content call or one "
                 "DatasourceProvider.write on 0-8 marker-prefixed lines built from pieces where obfuscators compete (keyword inside a "
                 "host name, address inside a longer token, MAC/IPv6 overlaps, keyword equal to a substitute prefix, password lines). "
-                "hist (40%): 1-4 calls of 1-4 lines on one Cleaner, every line carrying 2-6 DIFFERENT items for 1-3 obfuscators drawn "
+                "hist (33%): 1-4 calls of 1-4 lines on one Cleaner, every line carrying 2-6 DIFFERENT items for 1-3 obfuscators drawn "
                 "from per-case pools (host names of the system's domain incl. suffix/prefix pairs db.D / www.db.D / a.www.db.D / xdb.D, "
                 "IPv4, IPv6, MAC, up to 5 keywords) so that several are NEW at once and numbering depends on the order they are taken; "
                 "outputs AND all mappings after every call are compared; the history is repeated 2-3 times in fresh Cleaners built from "
@@ -636,7 +796,12 @@ def run(chk):
         c["id"] = i
     res = run_seeds(cases, seeds)
     chk.extra["hash_seeds"] = len(seeds)
+    for i, c in enumerate(cases):
+        if c["kind"] == "echo":
+            c["_c2"] = res[seeds[0]][i]["c2"]
     model = run_model(cases, setup)
+    for c in cases:
+        c.pop("_c2", None)
 
     # witnesses of the listed findings (corpus files that name one)
     for (fid, _), i in zip(corpus, range(n_corpus)):
@@ -662,6 +827,8 @@ def run(chk):
             chk.count("hist:issued", sum(len(v) for v in r0["maps"][-1].values()))
             if c["allowlists"]:
                 chk.count("hist:shared-allowlist")
+        elif c["kind"] == "echo":
+            chk.count("echo:substitutes-in-content", sum(1 for l in r0["c2"] if "copied" in l or "seen" in l))
         elif c["kind"] == "glue":
             chk.count("glue:" + c["spec"])
             chk.count("glue:competing" if fid else "glue:non-competing")
@@ -669,7 +836,7 @@ def run(chk):
                 chk.count("glue:write=" + (r["write"] if isinstance(r, dict) else "exc"))
         elif c["kind"] == "clean":
             chk.count("result:" + ("empty" if not r0["out"] else "lines"))
-        else:
+        elif c["kind"] == "write":
             chk.count("write:" + r0["write"])
         # oracle (a): every seed gives the same answer
         for s in seeds[1:]:
@@ -713,6 +880,8 @@ def replay(data):
     case = dict(case)
     case["id"] = 0
     res = run_seeds([case], seeds, par=2)
+    if case["kind"] == "echo":
+        case["_c2"] = res[seeds[0]][0]["c2"]
     model = run_model([case], c09.setup_lines())[0]
     bad, fid = False, finding_of(case)
     for s in seeds:
